@@ -162,3 +162,9 @@ pub fn verif_filter<I: Iterator, F: FnMut(&I::Item) -> bool>(it: I, f: F, Ghost(
         forall |k: int, b: bool| 0 <= k < it.remaining().len() && #[trigger] f.ensures((&it.remaining()[k],), b) ==> b == pred(it.remaining()[k]),
     ensures r.obeys_prophetic_iter_laws(), r.remaining() == it.remaining().filter(pred),
 { it.filter(f) }
+
+/// `it.collect::<Vec<_>>()` (= itertools `collect_vec`)
+#[verifier::external_body]
+pub fn verif_collect<I: Iterator>(it: I) -> (r: Vec<I::Item>)
+    ensures r@ == it.remaining()
+{ it.collect() }
